@@ -15,7 +15,7 @@
        coherence; loads may read any coherence-allowed message): trip line (release/acquire), Latch fast path,
        and the whole left-right protocol, each with machine-checked refutations for the weakened orders. *)
 From GV Require Lockset TraceActs.
-From GV Require LatchProofs LatchViews LRProofs LRViews DeferredProofs TriggerMO WrapperTrace CowProofs CowMO Properties_C04 RcuReadProofs Properties_C05 Properties_C12.
+From GV Require LatchProofs LatchViews LRProofs LRViews DeferredProofs TriggerMO WrapperTrace CowProofs CowMO Properties_C04 RcuReadProofs Properties_C05 Properties_C12 RcuViews.
 From GV Require Properties_C19 Properties_C18 Properties_C17 Properties_C16.
 
 (* ================= layer 1: mutex-protected data ================= *)
@@ -122,3 +122,27 @@ Theorem lr_relaxed_drain_refuted : ltac:(let T := type of LRViews.lr_relaxed_dra
 Proof. exact LRViews.lr_relaxed_drain_refuted. Qed.
 Theorem lr_relacq_flip_refuted : ltac:(let T := type of LRViews.lr_relacq_flip_refuted in exact T).
 Proof. exact LRViews.lr_relacq_flip_refuted. Qed.
+
+(* RCU reclaim log: with the source's orders (relaxed guess of the log head, relaxed pre-publication store to the
+   private record's next, seq_cst CAS; seq_cst owner.store(nullptr) and scan loads) no plain access to a record's
+   fields or to an erased node is a data race - every other thread reaches a record only through a value
+   published by a successful CAS, and a reclaimer frees only after every released reader's last access.  Indeed
+   only four sites matter: the two CASes (release+acquire), owner.store(nullptr) (release) and the scan's owner
+   load (acquire): every other site may have ANY order.  Each of those four, weakened to relaxed, has a racy
+   history.  The relaxed load of m_tail under the write mutex reads the newest store. *)
+Theorem rcu_log_publication : ltac:(let T := type of RcuViews.rcu_log_publication in exact T).
+Proof. exact RcuViews.rcu_log_publication. Qed.
+Theorem rcu_log_sufficient_orders : ltac:(let T := type of RcuViews.rcu_log_sufficient_orders in exact T).
+Proof. exact RcuViews.rcu_log_sufficient_orders. Qed.
+Theorem rcu_scan_reads_newest : ltac:(let T := type of RcuViews.rcu_scan_reads_newest in exact T).
+Proof. exact RcuViews.rcu_scan_reads_newest. Qed.
+Theorem rcu_tail_relaxed_ok : ltac:(let T := type of RcuViews.rcu_tail_relaxed_ok in exact T).
+Proof. exact RcuViews.rcu_tail_relaxed_ok. Qed.
+Theorem rcu_relaxed_cas_refuted : ltac:(let T := type of RcuViews.rcu_relaxed_cas_refuted in exact T).
+Proof. exact RcuViews.rcu_relaxed_cas_refuted. Qed.
+Theorem rcu_relaxed_erase_cas_refuted : ltac:(let T := type of RcuViews.rcu_relaxed_erase_cas_refuted in exact T).
+Proof. exact RcuViews.rcu_relaxed_erase_cas_refuted. Qed.
+Theorem rcu_relaxed_owner_store_refuted : ltac:(let T := type of RcuViews.rcu_relaxed_owner_store_refuted in exact T).
+Proof. exact RcuViews.rcu_relaxed_owner_store_refuted. Qed.
+Theorem rcu_relaxed_scan_owner_refuted : ltac:(let T := type of RcuViews.rcu_relaxed_scan_owner_refuted in exact T).
+Proof. exact RcuViews.rcu_relaxed_scan_owner_refuted. Qed.
